@@ -648,7 +648,7 @@ func flatCatalogues(c *Ctx) (singles, pairs []gen.Feature) {
 	singles = append(singles, gen.Catalogue(rest, func(hn string) bool { return sweepHolders[hn] }, named)...)
 	singles = append(singles, gen.OtherFeatures(gen.Sigma)...)
 	// quick pairs: a core of 3 holders x 15 contents (collisions, pointers, recursion, imports) + 8 other features
-	rep := map[string]bool{"prop": true, "opBody": true, "sharedResponse": true}
+	rep := map[string]bool{"prop": true, "opBody": true, "sharedResponse": true, "optionsResponse": true}
 	repContent := map[string]bool{"object": true, "richObject": true, "refAuxRich": true, "refLocal[pet owner]": true, "refAux[pet]": true, "selfRecursiveAux": true, "arrayOfItself": true,
 		"pointer[properties,complex]": true, "pointer[items,simple]": true, "pointer[properties,refAuxCollide]": true, "pointerNestedInTarget": true,
 		"collidingImport[sameName]": true, "collidingImport[sameNameSimple]": true, "collidingImport[twoAtOnce]": true, "twoImportsCaseDifferent": true,
